@@ -21,19 +21,55 @@ def random_sched(rng, n, length):
     return out[:length]
 
 
-def random_thread(rng, max_rounds):
+def random_round(rng, kind, allow_block=True):
+    """<fl><rel><opt>*: acquisition flavour, way of giving the ownership up, ownership object / spelling options
+    (see the head of harness/h_mutex.cpp)"""
+    if kind == "coro":
+        fl = rng.choice("ccccctl" if allow_block else "cccccct")
+        rel = rng.choice("xdaxdamg")
+    else:
+        fl = rng.choice("lllttkk")
+        rel = rng.choice("xdxdmg")
+    opts = ""
+    if rel != "g" and rng.random() < 0.35:
+        opts += "s"                         # ownership kept in the shared slot
+    if fl == "l":
+        opts += rng.choice(["", "", "f", "o"])   # wait() / force_wait() / ownership own(mx.lock())
+    return fl + rel + opts
+
+
+def random_thread(rng, max_rounds, plain=False):
     k = rng.randint(1, max_rounds)
-    if rng.random() < 0.55:
-        return "t coro " + " ".join(rng.choice(CORO_ROUNDS) for _ in range(k))
-    return "t sync " + " ".join(rng.choice(SYNC_ROUNDS if rng.random() < 0.8 else ["lx", "ld"]) for _ in range(k))
+    if plain:   # the original round set: own ownership object, no callbacks, no blocking lock inside a coroutine
+        if rng.random() < 0.55:
+            return "t coro " + " ".join(rng.choice(CORO_ROUNDS) for _ in range(k))
+        return "t sync " + " ".join(rng.choice(SYNC_ROUNDS if rng.random() < 0.8 else ["lx", "ld"]) for _ in range(k))
+    kind = "coro" if rng.random() < 0.55 else "sync"
+    return "t %s " % kind + " ".join(random_round(rng, kind) for _ in range(k))
+
+
+def legalise(threads):
+    """A blocking lock issued inside a coroutine blocks the whole OS thread together with the coroutines queued on it: when the
+    owner it waits for is one of them the *program* deadlocks (that is why wait() asserts there). Such a request is therefore
+    generated only where no coroutine can be queued on the thread yet: as the contender's first round, or in cases without
+    `co_await lock()` rounds (where no coroutine is ever resumed by another party)."""
+    has_co = any(r[0] == "c" for t in threads for r in t.split()[2:])
+    out = []
+    for t in threads:
+        w = t.split()
+        if w[1] == "coro" and has_co:
+            w = w[:3] + [("c" + r[1:].replace("f", "").replace("o", "")) if r[0] == "l" else r for r in w[3:]]
+        out.append(" ".join(w))
+    return out
 
 
 def gen_random(rng, count, min_t=2, max_t=4, max_rounds=3):
     cases = []
     for _ in range(count):
         n = rng.randint(min_t, max_t)
-        threads = [random_thread(rng, max_rounds) for _ in range(n)]
-        sched = random_sched(rng, n, rng.randint(0, 14 * n))
+        plain = rng.random() < 0.3
+        threads = legalise([random_thread(rng, max_rounds, plain) for _ in range(n)])
+        sched = random_sched(rng, n, rng.randint(0, 16 * n))
         cases.append(make_case(threads, sched))
     return cases
 
@@ -52,7 +88,7 @@ def gen_preemption_bounded_triples(rng, shapes_n=10, length=16, switches=3):
     """3 contenders, schedules with at most `switches` context switches (positions and targets enumerated)"""
     cases = []
     for _ in range(shapes_n):
-        threads = [random_thread(rng, 2) for _ in range(3)]
+        threads = legalise([random_thread(rng, 2) for _ in range(3)])
         for start in range(3):
             for pos in itertools.combinations(range(1, length), switches):
                 for targets in itertools.product([1, 2], repeat=switches):
@@ -84,7 +120,7 @@ def parse(case, out):
         elif w[0] == "done":
             info["done"].append(int(w[1][1:]))
         elif w[0] == "final":
-            info["final"] = (w[1], w[2])
+            info["final"] = tuple(w[1:])
         elif w[0] == "agent":
             d, t = w[2].split("=")[1].split("/")
             info["rounds"][int(w[1][1:])] = (int(d), int(t))
